@@ -589,6 +589,18 @@ def rule_use(fx, rep):
             if not good:
                 ok = False
                 rep.violation("C14-USE", f"C14-USE/{fn}/{arm}", f"`{fn}` in the {arm} arm {why}", {"fn": b.name, "file": b.file, "line": b.line})
+    # the clock is consulted for every search that has a limit: an answer "keep going" that does not look at the clock is selected by
+    # the kind of limit only (C05-LIMIT's path analysis), not by other state of the strategy such as "still in the first iteration"
+    # (seed C14-7b: a depth-1 iteration that is itself enormous then overruns the clock)
+    pC05.limit_verdicts(fx)
+    for fn_, cond_, keep_ in list(pC05.UNEXPLAINED):
+        if fn_.endswith("should_stop"):
+            n += 1
+            ok = False
+            rep.obligation(False)
+            b_ = fx.one(fn_)
+            rep.violation("C14-USE", f"C14-USE/{fn_}/unclocked", f"`{fn_}` answers `{keep_}` without consulting the clock under `{cond_}`, which is not the kind of limit: while that holds, a search with a finite limit is not stopped when the limit expires",
+                          {"fn": b_.name, "file": b_.file, "line": b_.line})
     # depth 1 is always started: checked under C09-POLL
     rep.rule("C14-USE", n, 6, ok, "limits compared with elapsed time per arm")
 
@@ -874,6 +886,10 @@ S = "src/engine/search/mod.rs"
 U = "src/engine/uci/mod.rs"
 P = "src/engine/uci/parser.rs"
 MUTANTS = [
+    {"name": "time-based poll switched off during the first iteration (seed C14-7b)", "expect": "C14-USE/TimeStrategy::should_stop/unclocked",
+     "edits": [("src/engine/search/time_control.rs", "    next_check_at: u64,\n", "    next_check_at: u64,\n    current_depth: u8,\n"),
+               ("src/engine/search/time_control.rs", "            next_check_at: params::CHECK_TERMINATION_NODE_FREQUENCY,\n", "            next_check_at: params::CHECK_TERMINATION_NODE_FREQUENCY,\n            current_depth: 1,\n"),
+               ("src/engine/search/time_control.rs", "        self.next_check_at = nodes_visited + params::CHECK_TERMINATION_NODE_FREQUENCY;\n", "        self.next_check_at = nodes_visited + params::CHECK_TERMINATION_NODE_FREQUENCY;\n\n        if self.current_depth <= 1 {\n            return false;\n        }\n")]},
     {"name": "table wiped from new_generation() when the generation counter wraps (seed C14-6a)", "expect": "C14-POLL/table-pass",
      "edits": [("src/engine/transposition_table.rs", "        self.generation = self.generation.wrapping_add(1);", "        self.generation = self.generation.wrapping_add(1);\n        if self.generation == 0 {\n            self.reset();\n        }")]},
     {"name": "limits extended after construction (seed C14-5a)", "expect": "C14-CAP/late-write",
